@@ -213,10 +213,23 @@ def commitment_ds(transaction, refs):
 
 
 def action_case(value):
-    msg_id, pc_id, transaction, nok, nfail, outcome_kind = value
+    msg_id, pc_id, transaction, nok, nfail, outcome_kind = value[:6]
+    form = value[6] if len(value) > 6 else 'list'
     from pynetdicom2 import sopclass, exceptions
     case = {'svc': 'StorageCommitment.n_action', 'msg_id': msg_id, 'pc_id': pc_id, 'transaction': transaction,
-            'nok': nok, 'nfail': nfail, 'outcome': outcome_kind}
+            'nok': nok, 'nfail': nfail, 'outcome': outcome_kind, 'form': form}
+
+    def shaped(seq):
+        # the handler is documented to return 'iterable or None'
+        if form == 'tuple':
+            return tuple(seq)
+        if form == 'iterator':
+            return iter(list(seq))
+        if form == 'generator':
+            return (x for x in list(seq))
+        if form == 'none-if-empty' and not seq:
+            return None
+        return list(seq)
     refs = [(svc.CT_STORAGE, '1.2.3.4.%d' % (i + 1)) for i in range(nok + nfail)]
     ok = refs[:nok]
     bad = [(c, i, 0x0112) for c, i in refs[nok:]]
@@ -226,7 +239,7 @@ def action_case(value):
         seen.append((remote_ae, list(uids_)))
         if outcome_kind == 'raise':
             raise exceptions.EventHandlingError('scripted')
-        return dict(REMOTE), ok, bad
+        return dict(REMOTE), shaped(ok), shaped(bad)
     ae = svc.make_server({'on_commitment_request': on_request}, [sopclass.StorageCommitment()])
     req = {0x0003: svc.COMMITMENT, 0x0100: 0x0130, 0x0110: msg_id, 0x1001: svc.COMMITMENT_INSTANCE, 0x1008: 1}
     data = svc.enc_ds(commitment_ds(transaction, refs))
@@ -334,7 +347,8 @@ FAMILIES = {
     'move': (st.tuples(msg_ids, uids, pc_ids, st.integers(0, 4),
                        st.lists(st.sampled_from([0, 0, 0xB000, 0xA700, 0xC000]), min_size=1, max_size=4),
                        st.sampled_from(['ok', 'ok', 'ok', 'raise'])), move_case),
-    'n_action': (st.tuples(msg_ids, pc_ids, uids, st.integers(0, 3), st.integers(0, 3), st.sampled_from(['ok', 'ok', 'raise'])),
+    'n_action': (st.tuples(msg_ids, pc_ids, uids, st.integers(0, 3), st.integers(0, 3), st.sampled_from(['ok', 'ok', 'raise']),
+                           st.sampled_from(['list', 'tuple', 'iterator', 'generator', 'none-if-empty'])),
                  action_case),
     'n_event_report': (st.tuples(msg_ids, pc_ids, uids, st.integers(0, 3), st.integers(0, 3), st.sampled_from(['ok', 'ok', 'raise'])),
                        report_case),
@@ -372,8 +386,10 @@ def run_family(ctx, job):
             ctx.check(fn, v)
     if fam in ('n_action', 'n_event_report'):
         for mid in MSG_IDS:
-            for nok, nfail in ((2, 0), (0, 2), (1, 1), (0, 0)):
+            for k, (nok, nfail) in enumerate(((2, 0), (0, 2), (1, 1), (0, 0))):
                 v = (mid, 1, '1.2.3.99', nok, nfail, 'ok')
+                if fam == 'n_action':
+                    v += (('list', 'generator', 'iterator', 'tuple', 'none-if-empty')[(k + mid) % 5],)
                 ctx.case((fam, 'boundary', mid, nok, nfail), True, labels=['svc=' + fam, 'boundary-id'])
                 ctx.check(fn, v)
 
@@ -411,6 +427,6 @@ def replay(case):
     elif s == 'qr_move_scp':
         move_case((case['msg_id'], case['sop'], case['pc_id'], case['nsub'], case['store_statuses'], oc))
     elif s == 'StorageCommitment.n_action':
-        action_case((case['msg_id'], case['pc_id'], case['transaction'], case['nok'], case['nfail'], oc))
+        action_case((case['msg_id'], case['pc_id'], case['transaction'], case['nok'], case['nfail'], oc, case.get('form', 'list')))
     else:
         report_case((case['msg_id'], case['pc_id'], case['transaction'], case['nok'], case['nfail'], oc))
